@@ -799,6 +799,9 @@ impl<'a> Parser<'a> {
     }
 
     fn pop_alternate(&mut self) -> Result<(), Error> {
+        if self.stack.len() < 2 {
+            return Err(self.error(ErrorKind::UnopenedAlternates));
+        }
         let mut alts = vec![];
         while self.stack.len() >= 2 {
             alts.push(self.stack.pop().unwrap());
